@@ -539,6 +539,17 @@ def S_C15i():
     return True
 
 
+def S_C15j():
+    # a refused extend must keep the elements before the refusal and leave a usable sequence
+    s = _c15_seq([[1, 2]])
+    try:
+        s.extend([np.full((1, 2), 3.), np.zeros((1, 5))])
+    except ValueError:
+        pass
+    s.append(np.full((1, 2), 4.))
+    return [float(np.asarray(x)[0, 0]) for x in s] != [1., 3., 4.] or s._build_cache is not None
+
+
 def S_C16d():
     from nibabel.streamlines import TrkFile, Tractogram
     z = 1.000005
